@@ -364,6 +364,26 @@ def run(ctx):
                         validate_and_maybe_execute(ctx, rng, case, t2, "adversarial:valid", d2, op2, amb)
                     else:
                         validate_and_maybe_execute(ctx, rng, case, t2, "adversarial:" + adv.__name__, None, None, amb)
+                # introspection meta fields outside the query root and in odd places
+                meta = ["{ __schema { queryType { name } } __type(name: \"String\") { name kind } __typename }",
+                        "{ ...M } fragment M on %s { __schema { types { name } } }" % case.ir.query]
+                if case.ir.mutation:
+                    m = case.ir.mutation
+                    meta += ["mutation { __schema { queryType { name } } }",
+                             "mutation { __type(name: \"String\") { name } }",
+                             "mutation { __typename ...M } fragment M on %s { __schema { queryType { name } } }" % m,
+                             "mutation { ... on %s { __type(name: \"%s\") { fields { name } } } }" % (m, m)]
+                if case.ir.subscription:
+                    meta += ["subscription { __schema { queryType { name } } }"]
+                objs = [t for t in case.ir.types.values() if t.kind == "object" and t.name not in (case.ir.query, case.ir.mutation, case.ir.subscription)]
+                for o in objs[:1]:
+                    holder = [f for f in case.ir.types[case.ir.query].fields if S.unwrap(f.type) == o.name and not [a for a in f.args if a.type[0] == "nonnull" and not a.has_default]]
+                    for f in holder[:1]:
+                        meta.append("{ %s { __schema { queryType { name } } } }" % f.name)
+                        meta.append("{ %s { __typename __type(name: \"Int\") { name } } }" % f.name)
+                for t in meta:
+                    ctx.count("adversarial:meta-fields")
+                    validate_and_maybe_execute(ctx, rng, case, t, "adversarial:meta-field-placement", None, None, amb)
                 # text-level mutants that still parse
                 from ..ref import reflang
 
